@@ -19,7 +19,7 @@ RULE = ("process_maze_rasterized_input_target(maze, opts) and RasterizedMazeData
         "2..10 (a quarter of the harness-built ones oblong, 1..10 columns), option combinations in varying order on one maze object, solutions of length 1, 2 and long, all 8 option combinations; batches with None, permutations and repeats. "
         "non-trivial & distinct = distinct (connection structure, solution, options) images with a solution of >= 2 cells")
 ASSUMPTIONS = ["isolated-pixel removal is applied before pixel extension (the order the option names suggest)",
-               "where a coloured start/end pixel takes part in the 'no open 4-neighbour' rule the statement is ambiguous; either reading is accepted at that pixel"]
+               "'open pixels with no open 4-neighbour become wall' is read as the option documents itself (docstring of _remove_isolated_cells: a cell 'surrounded by walls on all sides'): open = not wall, for the pixel and for its neighbours, so a start/end pixel counts as open on both sides of the rule"]
 NSHARDS = {"quick": 16, "thorough": 16}
 THRESHOLDS = {"quick": {**{f"c17:opts:{a}{b}{c}": 200 for a in "TF" for b in "TF" for c in "TF"}, "c17:images": 3000,
                         "c17:one-cell-solution": 50, "c17:two-cell-solution": 50, "c17:isolated-cells-present": 200,
